@@ -7,6 +7,7 @@ from ..core import (AnalysisIncomplete, call_name, const_value, kwarg,
                     walk_local)
 from ..patterns import (Cmp, assigns_to, calls_in, check_no_arg_mutation,
                         conjuncts, finfo, returns_of, subscript_stores)
+from ..match import C, CS
 
 PA = 'enspara/tpt/path.py'
 
@@ -50,7 +51,7 @@ def d2_top_path(ck, mod):
         ck.missing(rule, 'search loop')
         return
     loop = loops[0]
-    ck.check(u(loop.test) in ('len(queue) > 0', 'queue', 'len(queue) != 0', 'len(queue)'), rule + '.loop', mod, loop, 'top_path', u(loop.test),
+    ck.check(u(loop.test) in CS('len(queue) > 0', 'queue', 'len(queue) != 0', 'len(queue)'), rule + '.loop', mod, loop, 'top_path', u(loop.test),
              'search runs until the frontier is empty', 'the search loop must run while the queue is non-empty')
     # initialisation
     init = {u(s.targets[0]): s for s in fn.body if isinstance(s, ast.Assign) and isinstance(s.targets[0], ast.Name)}
@@ -80,8 +81,8 @@ def d2_top_path(ck, mod):
              vis[0][0] if vis else loop, 'top_path', u(vis[0][0]) if vis else 'visited', 'popped node is finalised', 'visited[test_node] = True expected')
     # neighbours: strictly positive entries of the row
     nb = [s for s in loop.body if isinstance(s, ast.Assign) and u(s.targets[0]) == 'neighbors']
-    ok = len(nb) == 1 and u(nb[0].value) in ('np.where(%s[%s, :] > 0)[0]' % (nf, tn), 'np.where(%s[%s] > 0)[0]' % (nf, tn),
-                                              'np.nonzero(%s[%s, :] > 0)[0]' % (nf, tn), 'np.flatnonzero(%s[%s, :] > 0)' % (nf, tn))
+    ok = len(nb) == 1 and u(nb[0].value) in CS('np.where(%s[%s, :] > 0)[0]' % (nf, tn), 'np.where(%s[%s] > 0)[0]' % (nf, tn),
+                                                'np.nonzero(%s[%s, :] > 0)[0]' % (nf, tn), 'np.flatnonzero(%s[%s, :] > 0)' % (nf, tn))
     ck.check(ok, rule + '.neighbors', mod, nb[0] if nb else loop, 'top_path', u(nb[0]) if nb else 'neighbors',
              'edges are exactly the strictly positive entries of the row of the expanded node',
              'neighbours must be the entries of net_flux[test_node, :] that are > 0: a tolerance test '
@@ -93,7 +94,7 @@ def d2_top_path(ck, mod):
     ck.check(ok, rule + '.relax', mod, nfl[0] if nfl else loop, 'top_path', u(nfl[0]) if nfl else 'new_fluxes',
              'candidate value = flux of the edge test_node -> neighbour', 'new_fluxes must be net_flux[test_node, neighbors]')
     clip = [(s, t) for s, t in subscript_stores(loop, 'new_fluxes')]
-    ok = len(clip) == 1 and u(clip[0][1].slice) in ('np.where(new_fluxes > min_fluxes[%s])' % tn, 'new_fluxes > min_fluxes[%s]' % tn) \
+    ok = len(clip) == 1 and u(clip[0][1].slice) in CS('np.where(new_fluxes > min_fluxes[%s])' % tn, 'new_fluxes > min_fluxes[%s]' % tn) \
         and u(clip[0][0].value) == 'min_fluxes[%s]' % tn
     alt = [s for s in loop.body if isinstance(s, ast.Assign) and u(s.targets[0]) == 'new_fluxes' and
            u(s.value) in ('np.minimum(new_fluxes, min_fluxes[%s])' % tn, 'np.fmin(new_fluxes, min_fluxes[%s])' % tn)]
@@ -101,10 +102,10 @@ def d2_top_path(ck, mod):
              u(clip[0][0]) if clip else 'clip', 'path bottleneck = min(edge flux, upstream bottleneck)',
              'the candidate must be clipped to the bottleneck of the path so far: min(edge flux, min_fluxes[test_node])')
     ind = [s for s in loop.body if isinstance(s, ast.Assign) and u(s.targets[0]) == 'ind']
-    ok = len(ind) == 1 and u(ind[0].value) in ('np.where(1 - visited[neighbors] & (new_fluxes > min_fluxes[neighbors]))',
-                                                'np.where(~visited[neighbors] & (new_fluxes > min_fluxes[neighbors]))',
-                                                'np.where((1 - visited[neighbors]) & (new_fluxes > min_fluxes[neighbors]))',
-                                                'np.where(new_fluxes > min_fluxes[neighbors])')
+    ok = len(ind) == 1 and u(ind[0].value) in CS('np.where(1 - visited[neighbors] & (new_fluxes > min_fluxes[neighbors]))',
+                                                  'np.where(~visited[neighbors] & (new_fluxes > min_fluxes[neighbors]))',
+                                                  'np.where((1 - visited[neighbors]) & (new_fluxes > min_fluxes[neighbors]))',
+                                                  'np.where(new_fluxes > min_fluxes[neighbors])')
     ck.check(ok, rule + '.improve', mod, ind[0] if ind else loop, 'top_path', u(ind[0]) if ind else 'ind',
              'a neighbour is updated only if its bottleneck strictly improves (and it is not finalised)',
              'the update set must be the neighbours with new_fluxes > min_fluxes[neighbors] (strict): '
@@ -221,7 +222,7 @@ def d4_paths(ck, mod):
                  'the loop must record the path, test the limits, and only then remove the path')
         t = test[0].test
         okt = isinstance(t, ast.BoolOp) and isinstance(t.op, ast.Or) and sorted(u(v) for v in t.values) == sorted(
-            ['counter >= %s' % npaths, 'expl_flux >= %s' % cutoff])
+            [C('counter >= %s' % npaths), C('expl_flux >= %s' % cutoff)])
         ck.check(okt, rule + '.limits', mod, test[0], 'paths', u(t), 'stop when the requested number of paths OR the explained fraction is reached',
                  'the stop test must be `counter >= num_paths or expl_flux >= flux_cutoff` (>: one path too many; and: ignores one limit)')
         ck.check(u(acc[0].value) == 'flux / total_flux' and isinstance(acc[0].op, ast.Add), rule + '.limits', mod, acc[0], 'paths', u(acc[0]),
